@@ -53,5 +53,10 @@ func init() {
 	register("C02", "", ruleOperationType, ruleCacheKey)
 	register("C01", "", ruleInsertionPointFresh, ruleCacheKey)
 	register("C17", "", rulePlanImmutable)
+	register("C12", "", ruleMultiplicity, ruleDedup, ruleCallers(nil))
+	register("C06", "", ruleMultiplicity, ruleDedup)
+	register("C11", "", ruleMultiplicity, ruleReducers, ruleGoSites)
+	register("C13", "", ruleDedup)
+	register("C01", "", ruleDedup)
 	register("X6", "debug: R6 over whole module", ruleErr(errScope{label: "all", pkgs: []string{"pebbles", "common", "executor", "format", "gqlerrors", "introspection", "merger", "planner", "queryer", "requests"}}))
 }
